@@ -6,6 +6,8 @@ A gate is described by a small tuple (its *descriptor*):
     ("R", kind, n, phase)    rotation; n = phase*8 (int) in exact mode, None for a float phase
     ("K", bits) / ("B", bits)  Ket / Bra                      ("S", cyc8_tuple | None, value)  scalar
     ("Q", name)              user-defined QuantumGate(name, n_qubits, array) from the CUSTOM table below
+                             (n_qubits = 0, 1, 2, 3; the 0-qubit ones are global phases)
+    ("P", value)             user-defined 0-qubit QuantumGate('phase', 0, [value]) with a float entry (float mode)
     ("Z", z_tuple | None, root_tuple | None, data)   the square-root scalar sqrt(data) (gates.Sqrt); in exact
                              mode data = root², both given as cyc8 tuples, root = the principal root
     ("U", g)                 g (a Ket / Bra / rotation / scalar / sqrt descriptor) built as an instance of a
@@ -94,11 +96,21 @@ def _custom_table():
     tof[[6, 7]] = tof[[7, 6]]                             # Toffoli: controls 0, 1, target 2
     t["TOF"] = tof
     t["U3"] = np.kron(np.kron(io["H"], io["S"]), I2) @ tof @ np.kron(I2, io["CX"])
+    # ZERO qubits: a global phase QuantumGate(name, 0, [w]).  It touches no wire, so only its scalar entry
+    # and its dagger flag matter: non-real unit entries (i, zeta_8, zeta_8^3, zeta_8^5) and one real one
+    # (-1, for which conjugation is invisible)
+    z8 = cmath.exp(1j * math.pi / 4)
+    t["PI"] = np.array([[1j]], dtype=complex)
+    t["PZ"] = np.array([[z8]], dtype=complex)
+    t["PW"] = np.array([[z8 ** 3]], dtype=complex)
+    t["PV"] = np.array([[z8 ** 5]], dtype=complex)
+    t["PM"] = np.array([[-1]], dtype=complex)
     return t
 
 
 CUSTOM = _custom_table()
 CUSTOM_NQ = {k: int(round(math.log2(v.shape[0]))) for k, v in CUSTOM.items()}
+CUSTOM0 = tuple(k for k, n in CUSTOM_NQ.items() if n == 0)
 CUSTOM1 = tuple(k for k, n in CUSTOM_NQ.items() if n == 1)
 CUSTOM2 = tuple(k for k, n in CUSTOM_NQ.items() if n == 2)
 CUSTOM3 = tuple(k for k, n in CUSTOM_NQ.items() if n == 3)
@@ -129,6 +141,8 @@ def std_io(g):
         return CUSTOM[g[1]].copy()
     if k == "U":
         return std_io(g[1])
+    if k == "P":
+        return np.array([[complex(g[1])]], dtype=complex)
     raise KeyError(k)
 
 
@@ -204,6 +218,8 @@ def build(g):
         return gates.sqrt(g[3])
     if k == "Q":
         return gates.QuantumGate(g[1], CUSTOM_NQ[g[1]], CUSTOM[g[1]].reshape(-1))
+    if k == "P":
+        return gates.QuantumGate("phase", 0, [g[1]])
     raise KeyError(k)
 
 
@@ -261,6 +277,8 @@ def show(g):
         return "Bra(%s)" % ", ".join(str(int(b)) for b in g[1])
     if k == "Q":
         return "QuantumGate(%r, %d, CUSTOM[%r])" % (g[1], CUSTOM_NQ[g[1]], g[1])
+    if k == "P":
+        return "QuantumGate('phase', 0, [%s])" % numtypes.show(g[1])
     if k == "Z":
         return "sqrt(%s)" % numtypes.show(g[3])
     return "scalar(%s)" % numtypes.show(g[2])
@@ -289,6 +307,8 @@ def kinds(g):
         return ["QuantumGate%d" % CUSTOM_NQ[g[1]]]
     if k == "U":
         return ["user-subclass"] + kinds(g[1])
+    if k == "P":
+        return ["QuantumGate0"]
     return [{"K": "Ket", "B": "Bra", "S": "scalar", "Z": "sqrt"}[k]]
 
 
@@ -389,10 +409,11 @@ class QGen:
     random bitstrings.  `exact=True`: phases n/8 (even n for all kinds but CU1) and scalars in
     ℤ[ζ₈]/2^e, so that the model evaluates the same circuit exactly."""
 
-    def __init__(self, rng, exact, gateset=None, max_wires=4, roots=False):
+    def __init__(self, rng, exact, gateset=None, max_wires=4, roots=False, phases0=False):
         self.rng, self.exact, self.max_wires = rng, exact, max_wires
         self.gateset = gateset
         self.roots = roots      # also square-root scalars sqrt(z) among the scalar boxes (C11)
+        self.phases0 = phases0  # also user-defined 0-qubit QuantumGates (global phases), half of them daggered
 
     def phase(self, kind):
         if self.exact:
@@ -442,6 +463,15 @@ class QGen:
         z = complex(round(self.rng.uniform(-2, 2), 3), round(self.rng.uniform(-2, 2), 3))
         return ("S", None, z if abs(z) > 1e-3 else 1j)
 
+    def gate0(self):
+        """A user-defined QuantumGate on ZERO qubits, with or without the dagger flag (once or twice)."""
+        if self.exact or self.rng.random() < 0.4:
+            g = ("Q", self.rng.choice(CUSTOM0))
+        else:
+            g = ("P", cmath.exp(1j * round(self.rng.uniform(-3.1, 3.1), 3)))     # a unitary on 0 qubits
+        r = self.rng.random()
+        return ("D", g) if r < 0.5 else ("D", ("D", g)) if r < 0.6 else g
+
     def gate1(self):
         r = self.rng.random()
         if r < 0.4:
@@ -487,7 +517,11 @@ class QGen:
             opts += ["g3"]
         if w < self.max_wires:
             opts += ["ket"] * (3 if w == 0 else 1)
+        if self.phases0:
+            opts += ["g0"] * 2
         o = self.rng.choice(opts)
+        if o == "g0":
+            return self.gate0()
         if o == "g1":
             return self.gate1()
         if o == "g2":
@@ -523,7 +557,7 @@ class QGen:
         while len(layers) < depth:
             g = self.pick(w)
             while unitary and g[0] in "KBSZ":
-                g = self.pick(w)
+                g = self.pick(w)            # (0-qubit QuantumGates are unitaries: they stay)
             d, c = arity(g)
             off = self.rng.randint(0, w - d)
             layers.append((off, g, w - off - d))
@@ -598,7 +632,7 @@ def _dag(y, f4k=True):
         return ("K", y[1])
     if k == "W":
         return y
-    if k == "Q":
+    if k in "QP":
         return ("D", y)
     if k == "Z":
         # gates.py:556-558: `self` if the DATA is conjugation-invariant, else Scalar(conj(data ** .5)).
